@@ -234,7 +234,7 @@ class Gen:
             port = ch.chance(1, 3)
         mc.nbun += 1
         name = f"b{mc.nbun}"
-        self.emit(["bun", mc.mid, name, bid, bool(port), ch.chance(1, 4)])
+        self.emit(["bun", mc.mid, name, bid, bool(port), ch.chance(1, 4), ch.weighted([(3, "ctor"), (1, "mul"), (1, "flip")], "bunhow")])
         return name
 
     def pick_target(self, mc, for_pair=False, for_array=False):
